@@ -10,9 +10,12 @@ structure AliasOK (al : AliasStore) : Prop where
   iff : ∀ l c, AMap.get al.aliasTo l = some c ↔ l ∈ al.aliases c
   roll : ∀ l c, AMap.get al.aliasTo l = some c → al.isRollapp c = true
 
-/-- an open sell order of a name ends before the name does, and was placed by the name's owner -/
+/-- an open sell order of a name ends before the name does, was placed by the name's owner, and its
+    highest bidder is not the owner (`MsgPurchaseOrder` refuses the owner, and the owner cannot change
+    while the order is open) -/
 def SOOK (s : State) : Prop :=
-  ∀ n so, AMap.get s.nameSO n = some so → ∃ d, s.ns.get n = some d ∧ so.expireAt < d.expireAt ∧ so.seller = d.owner
+  ∀ n so, AMap.get s.nameSO n = some so → ∃ d, s.ns.get n = some d ∧ so.expireAt < d.expireAt ∧ so.seller = d.owner ∧
+    ∀ b, so.bid = some b → b.bidder ≠ d.owner
 
 structure Inv (s : State) : Prop where
   wfN : NoDupKeys s.nameSO
@@ -206,7 +209,7 @@ theorem setName_same_inv {s : State} {n : Name} {d0 d : DymName} (hI : Inv s) (h
   · subst hmn
     have : d' = d0 := by rw [getName] at h0; rw [h0] at hd'; exact (Option.some.inj hd').symm
     subst this
-    exact ⟨d, by simp [setName, NameStore.get_set], by omega, by rw [ho]; exact hlt.2⟩
+    exact ⟨d, by simp [setName, NameStore.get_set], by omega, by rw [ho]; exact hlt.2.1, by rw [ho]; exact hlt.2.2⟩
   · exact ⟨d', by simp [setName, NameStore.get_set, hmn, hd'], hlt⟩
 
 theorem regPlan_keep {s : State} {a : Acct} {n : Name} {dur c : Nat} (h : (regPlan s a n dur c).prune = false) :
@@ -275,7 +278,7 @@ theorem setConfigChanged_inv {s : State} {n : Name} {d0 d : DymName} (hI : Inv s
   · subst hmn
     have : d' = d0 := by rw [getName] at h0; rw [h0] at hd'; exact (Option.some.inj hd').symm
     subst this
-    exact ⟨d, by simp [hg], by omega, by rw [ho]; exact hlt.2⟩
+    exact ⟨d, by simp [hg], by omega, by rw [ho]; exact hlt.2.1, by rw [ho]; exact hlt.2.2⟩
   · exact ⟨d', by simp [hg, hmn, hd'], hlt⟩
 
 theorem updateResolveAddress_inv {s s' : State} {a n ch e p v} (hI : Inv s)
